@@ -54,6 +54,7 @@ type callObs struct {
 	Oracle  string `json:"oracle"` // go toolchain, same encoding
 	Trace   string `json:"trace"`  // Coq list of (native id, args, results) observed during the quasigo run
 	VL0     int    `json:"vl0"`    // variadicLen left in the EvalEnv by earlier evaluations (set before the call)
+	Where   string `json:"where,omitempty"` // histories: which unit's function, called after which unit was compiled
 }
 
 type progObs struct {
@@ -317,6 +318,7 @@ func main() {
 	featStr := flag.String("feat", "logic,ifinit,blank,rejects", "comma separated feature switches: logic,ifnested,ifinit,compound,shadow,blank,forclauses")
 	noOracle := flag.Bool("nooracle", false, "skip the go toolchain batch")
 	corpusDir := flag.String("corpus", "", "directory of hand-written programs (*.go, functions qf0..qfN) run before the generated ones")
+	nhist := flag.Int("hist", 0, "number of histories (several units compiled into one Env, see hist.go)")
 	flag.Parse()
 	if *tmp == "" {
 		fmt.Fprintln(os.Stderr, "need -tmp")
@@ -500,6 +502,24 @@ func main() {
 		progs = append(progs, po)
 	}
 
+	// ---- histories: several units compiled into one Env
+	var hists []*histObs
+	hr := &histRunner{g: g, r: r, ntup: 3, timeouts: &timeouts, batch: &batch, mains: &mains}
+	for tries := 0; len(hists) < *nhist && tries < 20**nhist+100; tries++ {
+		mark, nm := batch.Len(), len(mains)
+		ho := hr.history(len(hists))
+		if ho == nil {
+			batch.Truncate(mark)
+			mains = mains[:nm]
+			discarded++
+			continue
+		}
+		for k, v := range ho.Feat {
+			totalCounts[k] += v
+		}
+		hists = append(hists, ho)
+	}
+
 	// ---- oracle: the Go toolchain
 	oracle := map[[2]int]string{}
 	oracleErr := ""
@@ -559,12 +579,18 @@ func main() {
 		}
 		enc.Encode(po)
 	}
+	for _, ho := range hists {
+		for ci := range ho.Calls {
+			ho.Calls[ci].Oracle = oracle[[2]int{ho.I, ci}]
+		}
+		enc.Encode(ho)
+	}
 	keys := make([]string, 0, len(totalCounts))
 	for k := range totalCounts {
 		keys = append(keys, k)
 	}
 	sort.Strings(keys)
-	enc.Encode(map[string]interface{}{"k": "summary", "programs": len(progs), "discarded_illtyped": discarded,
+	enc.Encode(map[string]interface{}{"k": "summary", "programs": len(progs), "histories": len(hists), "discarded_illtyped": discarded,
 		"constructs": totalCounts, "timeouts": timeouts, "natives": nativeNames, "oracle_err": oracleErr, "max_locals": quasigo.VerifMaxFuncLocals})
 }
 
